@@ -397,7 +397,8 @@ rawnext(void)
 static bool
 peekparen(void)
 {
-	static struct array pending;
+	/* the tokens stay referenced by the context stack, so every lookahead needs its own storage */
+	struct array pending = {0};
 	struct token *t;
 	struct frame *f;
 
@@ -410,7 +411,6 @@ peekparen(void)
 		++f->ntoken;
 		return false;
 	}
-	pending.len = 0;
 	do t = arrayadd(&pending, sizeof(*t)), nextinto(t);
 	while (t->kind == TNEWLINE);
 	if (t->kind == TLPAREN)
